@@ -40,10 +40,21 @@ ASSUMPTIONS = ['the "real loopback TCP and TLS runs" clause of the property '
 TSLOT = 3000
 
 
+_RACE = [None]
+
+
+def _race():
+    from . import _threads as T
+    if _RACE[0] is None:
+        _RACE[0] = T.RaceFamily(TBASES)
+    return _RACE[0]
+
+
 def plan(tier):
     return [('seeded', 1200 if tier == 'quick' else 40000),
             ('huge', 40 if tier == 'quick' else 1500),
             ('threaded_sweep', len(TBASES) * TSLOT),
+            ('threaded_race', _race().size(tier)),
             ('threaded_random', 400 if tier == 'quick' else 30000),
             ('pong_fault', 400 if tier == 'quick' else 15000)]
 
@@ -75,7 +86,9 @@ def _tinfo(b):
 def _threaded_case(family, i, rng, tier):
     import copy
     from . import _threads as T
-    if family == 'threaded_sweep':
+    if family == 'threaded_race':
+        case = _race().case(i, tier)
+    elif family == 'threaded_sweep':
         b = i // TSLOT
         n, nt = _tinfo(b)
         slot = i % TSLOT
